@@ -223,7 +223,7 @@ let mach_op (m : mach) op : string =
     | 'E' -> m.regs.(r) <- M.CEmpty; touch r; state ()
     | 'C' -> let b = Char.code op.[2] - 48 in
       if b < 0 || b > 3 then "?" else begin
-        touch r; m.regs.(b) <- M.clone m.regs.(r); touch b; state () end
+        touch r; m.regs.(b) <- M.big_cursor_clone m.regs.(r); touch b; state () end
     | 'n' | 'p' | 'l' | 'r' | 'u' | 'm' | 'x' ->
       touch r; m.regs.(r) <- ok (M.step t m.regs.(r) (move_of op.[0])); state ()
     | 'w' ->
@@ -243,8 +243,12 @@ let mach_op (m : mach) op : string =
         "y" ^ Buffer.contents res ^ "=" ^ state ()
       end
     | 'i' -> touch r; "i:" ^ ints (ok (M.cinorder_all t m.regs.(r)))
+    | 'j' when op.[String.length op - 1] = '!' &&
+               (op.[2] <> ':' || (match int_of_string_opt (String.sub op 3 (String.length op - 4)) with Some l -> l < 1 | None -> true)) -> "?"
     | 'j' -> touch r;
-      let lim = int_of_string (String.sub op 3 (String.length op - 3)) in
+      (* j<r>:<lim>! : the callback panics where the other one returns false - the same keys *)
+      let bang = op.[String.length op - 1] = '!' in
+      let lim = int_of_string (String.sub op 3 (String.length op - 3 - (if bang then 1 else 0))) in
       (* ks = append(ks, k); return len(ks) < lim *)
       let (acc, _) = ok (M.cinorder t m.regs.(r) (fun (acc, n) x -> ((x :: acc, n + 1), n + 1 < lim)) ([], 0)) in
       "i:" ^ ints (List.rev acc)
@@ -316,18 +320,18 @@ let probe (zcmp : int -> int -> M.z) (tr : int M.tree0) s : string =
     dadd_str dpath (path_str c);
     (match M.get zcmp k t with Some v -> incr nget; dadd dget v | None -> dadd dget (-1));
     dadd dabs (key_or t (ok (M.tree_cursor zcmp t (k + 1))));
-    let cn = ref (M.clone c) in
+    let cn = ref (M.big_cursor_clone c) in
     for _ = 1 to s do cn := ok (M.step t !cn M.MNext); dadd dnext (key_or t !cn) done;
-    let cp = ref (M.clone c) in
+    let cp = ref (M.big_cursor_clone c) in
     for _ = 1 to s do cp := ok (M.step t !cp M.MPrev); dadd dprev (key_or t !cp) done;
-    let cz = ref (M.clone c) in
+    let cz = ref (M.big_cursor_clone c) in
     String.iter (fun ch -> cz := ok (M.step t !cz (if ch = 'n' then M.MNext else M.MPrev)); dadd dzig (key_or t !cz)) zigzag;
-    let cu = ref (M.clone c) and steps = ref 0 in
+    let cu = ref (M.big_cursor_clone c) and steps = ref 0 in
     while M.has_parent !cu && !steps < n + 2 do
       cu := ok (M.step t !cu M.MUp); dadd dup (key_or t !cu); incr sup; incr steps
     done;
     if M.valid !cu && ok (M.key 0 t !cu) = root_key then incr nroot;
-    let mn = key_or t (ok (M.step t (M.clone c) M.MMin)) and mx = key_or t (ok (M.step t (M.clone c) M.MMax)) in
+    let mn = key_or t (ok (M.step t (M.big_cursor_clone c) M.MMin)) and mx = key_or t (ok (M.step t (M.big_cursor_clone c) M.MMax)) in
     dadd dmin mn; dadd dmax mx;
     (match Hashtbl.find_opt rank mn, Hashtbl.find_opt rank mx with
      | Some a, Some b -> sspan := !sspan + b - a + 1
@@ -362,9 +366,50 @@ let ord_letters = "lhoibBreEspP"
 
 (* a macro op parsed: the harness answers "?" for anything else *)
 type macro = MA of char * int * int * int * int | MR of char * int * int | MQ of int | MBad | MPrim
+  (* round 4, session.go: single edits, clones into other slots, the rest of the Tree API *)
+  | MEdit of char * int | MClear | MClone of int * int | MSlot of int
+  | MAfter of int * int | MInorder of int | MMin | MMax | MLen | MFuse
+let n_slots = 3
+(* strconv.Atoi: an optional sign and decimal digits only *)
+let atoi_opt s =
+  let n = String.length s in
+  let st = if n > 0 && (s.[0] = '-' || s.[0] = '+') then 1 else 0 in
+  if n = st then None else begin
+    let ok = ref true in
+    for i = st to n - 1 do if s.[i] < '0' || s.[i] > '9' then ok := false done;
+    if !ok then int_of_string_opt (if s.[0] = '+' then String.sub s 1 (n - 1) else s) else None
+  end
+(* <lim> or <lim>! (lim >= 1): the loop body panics instead of breaking - the same keys either way *)
+let lim_opt s =
+  let n = String.length s in
+  if n > 0 && s.[n - 1] = '!' then (match atoi_opt (String.sub s 0 (n - 1)) with Some l when l >= 1 -> Some l | _ -> None)
+  else (match atoi_opt s with Some l when l >= 0 -> Some l | _ -> None)
+let slot_of c = let v = Char.code c - 48 in if v >= 0 && v < n_slots then Some v else None
 let parse_macro op =
   if op = "" then MBad else
+  let rest = String.sub op 1 (String.length op - 1) in
   match op.[0] with
+  | '+' | '=' | '-' -> (match atoi_opt rest with Some k -> MEdit (op.[0], k) | None -> MBad)
+  | '~' -> if op = "~" then MClear else MBad
+  | 'Y' ->
+    if String.length op <> 3 then MBad else
+    (match slot_of op.[1], slot_of op.[2] with
+     | Some a, Some b when a <> b -> MClone (a, b)
+     | _ -> MBad)
+  | '@' -> if String.length op <> 2 then MBad else (match slot_of op.[1] with Some a -> MSlot a | None -> MBad)
+  | 'F' ->
+    (match String.split_on_char ':' rest with
+     | [k; lim] -> (match atoi_opt k, lim_opt lim with Some k, Some lim -> MAfter (k, lim) | _ -> MBad)
+     | _ -> MBad)
+  | 'I' -> (match lim_opt rest with Some lim -> MInorder lim | _ -> MBad)
+  | '!' ->
+    (match String.split_on_char ':' rest with
+     | [n; c] when String.length c >= 2 && String.contains "gcfF" c.[0] ->
+       (match atoi_opt n, atoi_opt (String.sub c 1 (String.length c - 1)) with
+        | Some n, Some _ when n >= 1 -> MFuse
+        | _ -> MBad)
+     | _ -> MBad)
+  | 'T' -> if String.length op <> 2 then MBad else (match op.[1] with 'm' -> MMin | 'x' -> MMax | 'l' -> MLen | _ -> MBad)
   | 'A' ->
     (match String.split_on_char ':' (String.sub op 1 (String.length op - 1)) with
      | [p; lo; n; step; seed] when String.length p = 1 ->
@@ -398,30 +443,62 @@ let eval_big cs beta ops =
     match int_opt beta with
     | None -> push "?"
     | Some beta ->
-      let tr = ref (match M.big_new zcmp (z_of_int beta) with M.Ok t -> t | _ -> raise (Fail "panic:other")) in
-      let m = { t = M.big_root !tr; regs = Array.make 4 M.CNil; used = 0; big = true; zcmp } in
+      let tr0 = match M.big_new zcmp (z_of_int beta) with M.Ok t -> t | _ -> raise (Fail "panic:other") in
+      let new_mach t = { t = M.big_root t; regs = Array.make 4 M.CNil; used = 0; big = true; zcmp } in
+      (* the tree slots of the line: the Tree of the C01 model and the cursor registers over it *)
+      let trees = Array.make n_slots None in
+      trees.(0) <- Some (ref tr0, new_mach tr0);
+      let cur = ref 0 in
+      (* the consumer of Tree.Inorder / InorderAfter: every key is recorded, the loop ends after lim keys *)
+      let collect lim (acc, n) x = ((x :: acc, n + 1), lim = 0 || n + 1 < lim) in
       List.iter (fun op ->
+        let (tr, m) = match trees.(!cur) with Some p -> p | None -> raise (Fail "no tree") in
+        let edited () = mach_reset m; m.t <- M.big_root !tr in
         match parse_macro op with
         | MBad -> push "?"
         | MA (pat, lo, n, step, seed) ->
-          mach_reset m;
           let cnt = ref 0 in
           List.iter (fun k ->
             let (t', b) = ok (M.big_add zcmp limit_z !tr k) in
             tr := t'; if b then incr cnt) (add_keys pat lo n step seed);
-          m.t <- M.big_root !tr;
+          edited ();
           push ("a" ^ string_of_int !cnt)
         | MR (ord, keep, seed) ->
           let keys = Array.of_list (M.inorder (M.big_root !tr)) in
           let idx = removal_idx ord (Array.length keys) keep seed (shape_metric (M.big_root !tr)) in
-          mach_reset m;
           let cnt = ref 0 in
           List.iter (fun j ->
             let (t', b) = ok (M.big_remove zcmp !tr keys.(j)) in
             tr := t'; if b then incr cnt) idx;
-          m.t <- M.big_root !tr;
+          edited ();
           push ("r" ^ string_of_int !cnt)
         | MQ s -> push (probe zcmp !tr s)
+        | MEdit (c, k) ->
+          let (t', b) = ok (match c with
+            | '+' -> M.big_add zcmp limit_z !tr k
+            | '=' -> M.big_replace zcmp limit_z !tr k
+            | _ -> M.big_remove zcmp !tr k) in
+          tr := t'; edited ();
+          push ("e" ^ b01 b)
+        | MClear -> tr := M.big_clear !tr; edited (); push "e-"
+        | MClone (a, b) ->
+          (match trees.(a) with
+           | None -> push "?"
+           | Some (ta, _) ->
+             let c = M.big_clone !ta in
+             trees.(b) <- Some (ref c, new_mach c);
+             push ("y" ^ string_of_int (int_of_z (M.big_len c))))
+        | MSlot a -> (match trees.(a) with None -> push "?" | Some _ -> cur := a; push op)
+        | MAfter (k, lim) ->
+          let ((acc, _), _) = ok (M.big_inorder_after zcmp !tr k (collect lim) ([], 0)) in
+          push ("f:" ^ fmt_ints (List.rev acc))
+        | MInorder lim ->
+          let ((acc, _), _) = M.big_inorder !tr (collect lim) ([], 0) in
+          push ("f:" ^ fmt_ints (List.rev acc))
+        | MMin -> push ("v:" ^ string_of_int (match M.big_min !tr with Some x -> x | None -> 0))
+        | MMax -> push ("v:" ^ string_of_int (match M.big_max !tr with Some x -> x | None -> 0))
+        | MLen -> push ("l:" ^ string_of_int (int_of_z (M.big_len !tr)) ^ "," ^ b01 (M.big_is_empty !tr))
+        | MFuse -> push "x"     (* an observer under a comparator that panics: no effect on anything *)
         | MPrim -> push (mach_op m op)) (split_on ';' ops)
   with Fail s -> items := s :: !items);
   String.concat ";" (List.rev !items)
@@ -546,7 +623,8 @@ let sm_op (m : sm) op it =
           (match a.hi with Some y when y <> s + mlen -> fail r op "Inorder does not end at the greatest key of the subtree" | _ -> ());
           regs.(r) <- At { a with lo = Some s; hi = Some (s + mlen) }
         end else begin
-          let lim = int_of_string (String.sub op 3 (String.length op - 3)) in
+          let bang = op.[String.length op - 1] = '!' in
+          let lim = int_of_string (String.sub op 3 (String.length op - 3 - (if bang then 1 else 0))) in
           if mlen > lim then fail r op "Inorder went on after yield returned false";
           (match a.hi with Some y when mlen <> min lim (y - s) -> fail r op "stopped Inorder has the wrong length" | _ -> ());
           if mlen < lim then begin
@@ -692,9 +770,14 @@ let sm_run m ops items =
 let spec_big cs ops out =
   let cf = cmp_of cs in
   let module S = Set.Make (struct type t = int let compare a b = let c = cf a b in if c < 0 then -1 else if c > 0 then 1 else 0 end) in
-  let known = ref (Some S.empty) and card = ref 0 in
-  let m = { l = [||]; sregs = Array.make 4 Inv; last = Array.make 4 ""; sused = 0; cf; sbig = true; tbl = None } in
-  let sync () = match !known with Some s -> m.l <- Array.of_list (S.elements s) | None -> m.l <- [||] in
+  (* one reference per tree slot: the key set (None: unknown until a probe prints it), its size (-1: unknown)
+     and the register machine over it; a Clone copies the reference of its source, an edit changes only
+     the reference of the current slot *)
+  let new_sm () = { l = [||]; sregs = Array.make 4 Inv; last = Array.make 4 ""; sused = 0; cf; sbig = true; tbl = None } in
+  let slots = Array.init n_slots (fun _ -> (ref (Some S.empty), ref 0, ref (new_sm ()))) in
+  let live = Array.make n_slots false in
+  live.(0) <- true;
+  let cur = ref 0 in
   let failop op msg = raise (Fail (Printf.sprintf "op %s: %s" op msg)) in
   let rec go ops items =
     match ops, items with
@@ -704,8 +787,62 @@ let spec_big cs ops out =
     | op :: ops', it :: items' ->
       if String.length it >= 5 && String.sub it 0 5 = "panic" then raise (Fail ("panic at " ^ op));
       if it = "hang" then raise (Fail ("hang at " ^ op));
+      let (known, card, mref) = slots.(!cur) in
+      let m = !mref in
+      let sync () = match !known with Some s -> m.l <- Array.of_list (S.elements s) | None -> m.l <- [||] in
+      (* the keys not below k, ascending: what InorderAfter(k) must yield *)
+      let from_key s k = List.filter (fun x -> cf x k >= 0) (S.elements s) in
+      let first_n lim l = if lim = 0 then l else take lim l in
       (match parse_macro op with
        | MBad -> ()
+       | MEdit (c, k) ->
+         sm_reset m;
+         (match !known with
+          | Some s ->
+            let present = S.mem k s in
+            let (want, s') = match c with
+              | '+' -> (not present, if present then s else S.add k s)
+              | '=' -> (not present, S.add k (S.remove k s))         (* the stored key becomes k itself *)
+              | _ -> (present, S.remove k s) in
+            known := Some s'; card := S.cardinal s'; sync ();
+            if it <> "e" ^ b01 want then
+              failop op (Printf.sprintf "returned %s, the key is %s in the reference" it (if present then "present" else "absent"))
+          | None -> card := -1)
+       | MClear ->
+         sm_reset m; known := Some S.empty; card := 0; sync ();
+         if it <> "e-" then failop op "bad item"
+       | MClone (a, b) ->
+         if live.(a) then begin
+           let (ka, ca, _) = slots.(a) in
+           let nm = new_sm () in
+           slots.(b) <- (ref !ka, ref !ca, ref nm);
+           live.(b) <- true;
+           (match !ka with Some s -> nm.l <- Array.of_list (S.elements s) | None -> ());
+           if !ca >= 0 && it <> "y" ^ string_of_int !ca then failop op (Printf.sprintf "the clone has Len %s, the original holds %d keys" it !ca)
+         end
+       | MSlot a -> if live.(a) then cur := a
+       | MAfter (k, lim) ->
+         (match !known with
+          | Some s ->
+            let want = "f:" ^ fmt_ints (first_n lim (from_key s k)) in
+            if it <> want then failop op (Printf.sprintf "InorderAfter yields %s, the keys of the tree not below %d are %s" it k want)
+          | None -> ())
+       | MInorder lim ->
+         (match !known with
+          | Some s ->
+            let want = "f:" ^ fmt_ints (first_n lim (S.elements s)) in
+            if it <> want then failop op (Printf.sprintf "Tree.Inorder yields %s, the keys of the tree are %s" it want)
+          | None -> ())
+       | MMin | MMax ->
+         (match !known with
+          | Some s ->
+            let want = "v:" ^ string_of_int (if S.is_empty s then 0 else if parse_macro op = MMin then S.min_elt s else S.max_elt s) in
+            if it <> want then failop op (Printf.sprintf "Tree.Min/Max is %s, the reference gives %s" it want)
+          | None -> ())
+       | MFuse -> if it <> "x" then failop op "bad item"
+       | MLen ->
+         if !card >= 0 && it <> Printf.sprintf "l:%d,%s" !card (b01 (!card = 0)) then
+           failop op (Printf.sprintf "Len/IsEmpty are %s, the reference holds %d keys" it !card)
        | MA (pat, lo, n, step, seed) ->
          sm_reset m;
          (match !known with
